@@ -26,7 +26,8 @@ RULE = (
     "auto_checkpoint file2 every=3, auto_checkpoint file1 again with other options, pool whose join() raises}, action in {nothing, sample, fit} at each of the 2D-1 body positions, exception at one position or none, "
     "kind of exception {raise an Exception, raise a KeyboardInterrupt subclass, fault inside the likelihood while sampling}, instance {fresh, already carrying defaults from resume_from_file, real "
     "ThreadPool}); exhaustive for depth <= 2 (quick) / <= 3 with all single-action bodies (thorough), seeded sample beyond. non-trivial = history with "
-    "an exception and depth >= 2, or a sampling action inside a pool context; distinct = the history tuple"
+    "an exception and depth >= 2, or a sampling action inside a pool context; distinct = the history tuple. Per chunk also: pool contexts whose set-up is refused (callable without map_fn), "
+    "and one handler object used twice (sequentially, nested, nested with an exception, likelihood reassigned in between, inside a checkpoint context)"
 )
 ASSUMPTIONS = [
     "pool = recording double with map/close/join (a real multiprocessing.pool.ThreadPool in a subset)",
